@@ -214,7 +214,7 @@ func Run(d *fw.Driver, res *fw.Result, seed int64, thorough bool) error {
 	if thorough {
 		rounds = 20
 	}
-	for round := 0; round < rounds; round++ {
+	for round := 0; round < rounds && !res.Enough(); round++ {
 		if err := one(d, res, seed+int64(round)*101, round, thorough); err != nil {
 			return err
 		}
